@@ -27,5 +27,9 @@ for kf in sorted((ROOT / 'known_findings').glob('*.json')):
                       for l in d.get('fixed', [])]
         kf.write_text(json.dumps(d, indent=1))
 (ROOT / 'pending_fixes' / 'applied').mkdir(exist_ok=True)
+idx = ROOT / 'pending_fixes' / 'applied' / 'INDEX.json'
+I = json.loads(idx.read_text()) if idx.exists() else {}
+I[name[:-5]] = h
+idx.write_text(json.dumps(I, indent=1))
 diff.rename(ROOT / 'pending_fixes' / 'applied' / name)
 print(h, title)
